@@ -191,5 +191,38 @@ theorem store_trace {tr : List String} {e : Ending} (hx : Exec Gen.mainLoop tr e
 /-- non-vacuity: the skeleton has executions of every kind (a plain successful iteration; a break; a restart) -/
 theorem nonvacuous : (reach mRuns Gen.mainLoop q0Runs).length = 5 ∧ size Gen.mainLoop > 400 := by decide +kernel
 
+/-! ### the exit object (C07 / C10): leaving the loop always carries one -/
+
+def exitActs : List String :=
+  ["exit:EXIT_SUCCESS", "exit:EXIT_LINALG_ERROR", "exit:EXIT_EVAL_ERROR", "exit:EXIT_SLOW_WARNING",
+   "exit:EXIT_FALSE_SUCCESS_WARNING", "exit:EXIT_AUTO_DETECT_RESTART_WARNING", "exit:EXIT_MAXFUN_WARNING",
+   "exit:EXIT_TR_INCREASE_ERROR", "exit:EXIT_INPUT_ERROR", "exit:EXIT_TR_INCREASE_WARNING"]
+
+/-- calls whose result is assigned to `exit_info` (it may be None afterwards) -/
+def mayClear : List String :=
+  ["soft", "eval", "geom", "grow", "move", "choose", "ratio", "exitinfo:none", "exitinfo:other"]
+
+/-- `true`: `exit_info` is known to be an ExitInformation object (just created, or tested `is not None` since its last assignment) -/
+def mExit : Mon Bool := ⟨fun q a =>
+  if a == "T:exit_info is not None" then true
+  else if a == "F:exit_info is not None" then false
+  else if mayClear.contains a then false
+  else if exitActs.contains a then true
+  else q⟩
+
+theorem exit_inert : ∀ a ∈ repActs Gen.mainLoop, ∀ q, mExit.step q a = q := by
+  have h : repActs Gen.mainLoop = ["smp"] := by decide +kernel
+  rw [h]; intro a ha q; simp at ha; subst ha; rfl
+
+theorem exit_all : allReach mExit Gen.mainLoop false (fun q e => e != .brk || q) = true := by decide +kernel
+
+/-- every execution of the loop body that leaves the loop has `exit_info` bound to an ExitInformation object: created on the path,
+    or returned by a Controller method and tested `is not None` after that assignment -/
+theorem exit_trace {tr : List String} {e : Ending} (hx : Exec Gen.mainLoop tr e) (he : e = .brk) :
+    mExit.run false tr = true := by
+  have h := all_paths mExit Gen.mainLoop false _ exit_inert exit_all hx
+  subst he
+  simpa using h
+
 end MainLoopPaths
 end Dfols
